@@ -252,11 +252,14 @@ def pipeline(pid, tier, rep):
     gen_o = replay_gen_ora(d, beh, cpy)
 
     # ---- VAL inputs
+    # the 80 KB function (operands and jump targets beyond 16 bits) costs xdis's iterator about 40 minutes per version: it is part of the
+    # thorough tier of C02 (operands) and C04 (targets); C03's operand resolution gains nothing from it
+    use_huge = (not quick) and pid != "C03"
     samples = ensure_samples(90)
     nmod = 10 if quick else 90
     files = corpus_files()
     for v, fl in samples.items():
-        files += pick(fl, nmod, huge=not quick)
+        files += pick(fl, nmod, huge=use_huge)
     val = record_xdis(d, files, lib.MAIN_HOST, "portable", "val", nproc=14)
     # what xdis says about a real file of a version whose interpreter is installed is judged under that interpreter's own opcode
     # table, not under xdis's (which C09 compares with it): a wrong category in xdis's table then shows here as the wrong argval or
@@ -270,7 +273,7 @@ def pipeline(pid, tier, rep):
     ora = []
     ojobs = []
     for v, fl in samples.items():
-        ojobs.append(lambda v=v, fl=fl: record_ora(d, v, pick(fl, 6 if quick else 90, salt=3, huge=not quick), v))
+        ojobs.append(lambda v=v, fl=fl: record_ora(d, v, pick(fl, 6 if quick else 90, salt=3, huge=use_huge), v))
     for r_ in run_parallel(ojobs):
         ora += r_
 
